@@ -304,6 +304,12 @@ def run_sequence(fmt: str, eps: int, seq: list, readers=("sync",)) -> dict:
             if any(g is None for g, _, _ in shards):
                 continue
             got_ids = [i for g, _, _ in shards for i in g]
+            acc = accepted.get(split, [])
+            if got_ids != acc and sorted(
+                    x for x in got_ids if x is not None) == sorted(acc):
+                bad.append(("C03", "write-order",
+                            f"split {split}: written in the order {acc}, "
+                            f"stored (listing order) as {got_ids}"))
             if not agrees(got_ids, accepted.get(split, []), strict):
                 bad.append(("C18", "content",
                             f"split {split}: accepted calls "
@@ -380,6 +386,11 @@ def run_sequence(fmt: str, eps: int, seq: list, readers=("sync",)) -> dict:
                                 f"after accepted writes: {type(e).__name__}: "
                                 f"{str(e)[:120]}"))
                     continue
+                if got != idx and sorted(
+                        x for x in got if x is not None) == sorted(idx):
+                    bad.append(("C03", "write-order",
+                                f"split {split}: written in the order {idx}, "
+                                f"reader {reader} yields {got}"))
                 if not agrees(got, idx, strict):
                     bad.append(("C18", "reader-content",
                                 f"reader {reader}: {got} expected {idx}"))
